@@ -155,6 +155,9 @@ func (Sim) Run(raw json.RawMessage, prop string, keep bool) (res simfw.Result) {
 		res.Inconcl = "no callers"
 		return
 	}
+	if len(s.Marker) < 6 {
+		s.Marker = "mqzqzq" + s.Marker // a shrunken marker must stay a distinctive token: outcomes are compared with the marker masked
+	}
 	if len(s.Callers) > zzsimrt.MaxG {
 		s.Callers = s.Callers[:zzsimrt.MaxG]
 	}
@@ -169,7 +172,7 @@ func (Sim) Run(raw json.RawMessage, prop string, keep bool) (res simfw.Result) {
 	newRaceReports() // discard anything older than this run
 
 	zzsimrt.ResetMapOrder(0)
-	w, err := LoadWorld(s.Marker)
+	w, err := LoadWorld(s.Marker, s.ColdPatterns)
 	if err != nil {
 		res.Inconcl = "world: " + simfw.Trunc(err.Error(), 80)
 		return
@@ -262,6 +265,9 @@ func (Sim) Run(raw json.RawMessage, prop string, keep bool) (res simfw.Result) {
 	if s.MapSeed != 0 {
 		res.Probe("map-order-permuted")
 	}
+	if s.ColdPatterns {
+		res.Probe("patterns-cold-at-start")
+	}
 
 	explicit := s
 	explicit.Policy = zzsimrt.Explicit(st.Trace, s.Policy.StepCap)
@@ -284,15 +290,30 @@ func (Sim) Run(raw json.RawMessage, prop string, keep bool) (res simfw.Result) {
 	}
 
 	// ---- B: every call returned what it returns when run alone ------------------
-	bw, err := LoadWorld(s.Marker)
-	if err != nil {
-		res.Inconcl = "baseline world"
-		return
+	// Each op runs alone (sequentially) on a freshly loaded document whose patterns
+	// carry a marker the concurrent phase has not seen, so that "alone" also means
+	// cold with respect to process-wide caches keyed by pattern text. Ops that
+	// bring their own regex compiler get a document (marker) per compiler kind, so
+	// no baseline can be served a matcher another baseline's compiler produced.
+	type baseW struct {
+		marker string
+		sh     *Shared
 	}
-	bsh := NewShared(bw)
+	bases := map[string]*baseW{}
 	for g := range s.Callers {
 		for k, op := range s.Callers[g] {
-			alone := op.Exec(bsh, s.Marker)
+			b := bases[op.Regex]
+			if b == nil {
+				bm := fmt.Sprintf("%sb%d", s.Marker, len(bases)+1)
+				bw, err := LoadWorld(bm, s.ColdPatterns)
+				if err != nil {
+					res.Inconcl = "baseline world"
+					return
+				}
+				b = &baseW{bm, NewShared(bw)}
+				bases[op.Regex] = b
+			}
+			alone := op.Remark(s.Marker, b.marker).Exec(b.sh, b.marker)
 			if alone != outcomes[g][k] {
 				res.Violate(Prop, "same-as-alone", fmt.Sprintf("%s/outcome-differs:%s", Prop, sigOp(g, k)),
 					fmt.Sprintf("caller %d op %d (%s) returned %q among %d concurrent callers but %q when run alone (policy %s, %d switches)", g, k, op.Kind, outcomes[g][k], ng, alone, s.Policy.Kind, len(st.Trace)))
